@@ -2,7 +2,7 @@
 # usage: tools_eval_all.sh <seed-dir>... — applies each seed to /repo, runs the property's quick check, restores /repo; log on stdout
 for S in "$@"; do
   B=$(basename $S)
-  P=$(echo $B | sed -E 's/seed[23]-(c[0-9]+)-.*/\1/' | tr c C)
+  P=$(echo $B | sed -E 's/seed[234]-(c[0-9]+)-.*/\1/' | tr c C)
   echo "=== $B ($P)"
-  /verif/tools_seed.sh $S/patch.diff $P quick 2>&1 | cut -c1-260 | head -4
+  /verif/tools_seed.sh $S/patch.diff $P quick 2>&1 | grep -a -v "^KNOWN-FINDING" | cut -c1-260 | head -4
 done
